@@ -144,6 +144,7 @@ def run_compute(mode="Diffuse", optical=True, radio=True, survivors=None, thrown
     raises StageFailure.  Returns a Recorder."""
     C = ctx()
     C.opaque_math = opaque  # numeric primitives abstracted: structural claims hold for every interpretation
+    C.simplify_stores = not opaque
     rec = Recorder()
     if survivors is not None and keep is None:
         keep = [True] * survivors + [False] * (thrown - survivors)
